@@ -412,3 +412,30 @@ Proof.
   intros Hg. destruct (dget_some _ _ _ Hg) as (x & E & Hse & _). unfold dmark. rewrite E, Hse.
   destruct (counts_dset_in k (EPlace l true) d x E) as [_ H]. unfold is_cnt in H. rewrite Hse in H. cbn in H. lia.
 Qed.
+
+Lemma dremove_absent k d : ~ In k (keys d) -> dremove k d = d.
+Proof.
+  induction d as [|y r IH]; cbn [dremove filter keys map]; [reflexivity|]. intros H. fold (dremove k r).
+  destruct (Nat.eqb_spec (sk y) k) as [E|E]; cbn [negb].
+  - exfalso. apply H. now left.
+  - f_equal. apply IH. intros H'. apply H. now right.
+Qed.
+
+Lemma counts_dremove_nodup k d x :
+  NoDup (keys d) -> dfind k d = Some x ->
+  nval (dremove k d) + (if is_val x then 1 else 0) = nval d /\
+  ncnt (dremove k d) + (if is_cnt x then 1 else 0) = ncnt d.
+Proof.
+  induction d as [|y r IH]; cbn [dfind]; [discriminate|]. intros Hn. inversion Hn as [|a b Ha Hb]; subst.
+  cbn [dremove filter]. fold (dremove k r). destruct (Nat.eqb_spec (sk y) k) as [E|E]; cbn [negb].
+  - intros [= <-]. rewrite dremove_absent by (rewrite <- E; exact Ha). rewrite nval_cons, ncnt_cons. split; lia.
+  - intros H. destruct (IH Hb H) as [H1 H2]. rewrite !nval_cons, !ncnt_cons. split; lia.
+Qed.
+
+Lemma counts_dmove k st d :
+  NoDup (keys d) -> nval (dmove k st d) = nval d /\ ncnt (dmove k st d) = ncnt d.
+Proof.
+  intros Hn. unfold dmove. destruct (dfind k d) as [x|] eqn:E; [|auto].
+  destruct (counts_dremove_nodup k d x Hn E) as [H1 H2]. rewrite nval_app, ncnt_app.
+  unfold is_val, is_cnt in *. cbn [se]. split; lia.
+Qed.
